@@ -39,7 +39,7 @@ from taskiq.message import TaskiqMessage
 from taskiq.serializers.pickle import PickleSerializer
 from taskiq.receiver import Receiver
 
-REAL_ASYNCIO = rmod.asyncio
+import asyncio as REAL_ASYNCIO  # noqa: E402  (not rmod.asyncio: the receiver module may import names from asyncio only)
 
 
 class Boom(BaseException):
